@@ -9,21 +9,35 @@ def check(ctx):
     ctx.rule("C05.T1", "staleness decision table equals the specification (strict comparison; pure sources only when missing; propagation through store-less nodes)")
     ctx.rule("C05.W1", "fresh entry: every out-edge of the original node is removed, argument consumers hang off the read node, plain dependents are released, no write node")
     ctx.rule("C05.W2", "one read node per entry, one write node iff stale; each call executes at most once (atomic readiness counter, exclusive partition, queue kinds)")
+    ctx.rule("C05.W4", "a successful file-store write always replaces the target (so its modified time advances past its inputs')")
     ctx.rule("C05.W3", "only write nodes and the redirected output are required: with nothing stale and no output the required set is empty")
     ctx.assume("run-time counts of reads/writes are not observed; 'read at most once' additionally rests on C04")
     er = E.discover(ctx.model)
     rr = R.discover(ctx.model, er)
-    S.rule_stale_table(ctx, "C05.T1", rr)
+    ctx.run(S.rule_stale_table, "C05.T1", rr)
     ctx.notes["exhaustive"] = True
-    S.rule_order_only(ctx, "C05.T1", rr)
+    ctx.run(S.rule_order_only, "C05.T1", rr)
     from .c18 import rule_normaliser_frames
-    rule_normaliser_frames(ctx, "C05.T1")
-    W.rule_edge_effect_table(ctx, "C05.W2", rr, rid_fresh="C05.W1")
-    W.rule_two_entry_chains(ctx, "C05.W2", rr)
-    W.rule_snapshot_before_mutation(ctx, "C05.W1", rr)
-    S.rule_every_stale_entry_rebuilt(ctx, "C05.W2", rr, rid_required="C05.W3")
-    S.rule_ancestor_closure(ctx, "C05.W3", rr)
-    E.rule_atomic_counter(ctx, "C05.W2", er)
-    E.rule_counting_agreement(ctx, "C05.W2", er)
-    E.rule_one_callback_per_dequeue(ctx, "C05.W2", er)
-    E.rule_queue_effects(ctx, "C05.W2", er)
+    ctx.run(rule_normaliser_frames, "C05.T1")
+    ctx.run(W.rule_edge_effect_table, "C05.W2", rr, rid_fresh="C05.W1")
+    ctx.run(W.rule_two_entry_chains, "C05.W2", rr)
+    ctx.run(W.rule_snapshot_before_mutation, "C05.W1", rr)
+    ctx.run(S.rule_every_stale_entry_rebuilt, "C05.W2", rr, rid_required="C05.W3")
+    ctx.run(S.rule_ancestor_closure, "C05.W3", rr)
+    ctx.run(E.rule_atomic_counter, "C05.W2", er)
+    ctx.run(E.rule_counting_agreement, "C05.W2", er)
+    ctx.run(E.rule_one_callback_per_dequeue, "C05.W2", er)
+    ctx.run(E.rule_queue_effects, "C05.W2", er)
+    from .extra import rule_fresh_time_untouched
+    ctx.run(rule_fresh_time_untouched, "C05.T1", rr)
+    ctx.run(S.rule_owner_writes_only, "C05.T1", rr)
+    ctx.run(S.rule_stale_check_sees_stored_nodes, "C05.T1", rr)
+    # a successful write always publishes (the store's modified time advances): premise of 'a repeated run does nothing'
+    from . import c11
+    sub = type(ctx)(ctx.pid, ctx.model, ctx.tier, quiet=True)
+    ctx.run(lambda _c: c11.check(sub))
+    for o in sub.obligations:
+        if o["rule"] in ("C11.A8", "C11.A2"):
+            o = dict(o)
+            o["rule"] = "C05.W4"
+            ctx.obligations.append(o)
